@@ -24,7 +24,12 @@ SIMPLE = ['Y', 'W', 'U', 'X', 'F', 'XO', 'FO', 'XOd', 'FOd']
 SPAWNS = ['SP', 'SC', 'CA', 'SO']
 
 
+REDUCED = None   # when set: the atom list used instead of the full one (larger bodies over a smaller alphabet)
+
+
 def atoms(depth_children):
+    if REDUCED is not None:
+        return list(REDUCED)
     a = list(SIMPLE)
     for k in SPAWNS:
         for c in range(len(CHILDREN)):
@@ -187,11 +192,19 @@ def child_depth(c):
     return 1
 
 
-def generate(bdir, max_nodes, nest, shards):
+def generate(bdir, max_nodes, nest, shards, extra_nodes=0):
+    global REDUCED
     progs = []
     for n in range(0, max_nodes + 1):
         for b in bodies(n, nest):
             progs.append(b)
+    # larger bodies over a reduced alphabet (one representative of each kind of statement)
+    if extra_nodes:
+        REDUCED = ['Y', 'U', 'FO', 'XOd', ('SP', 1), ('SC', 2), ('CA', 3), ('SO', 5)]
+        for n in range(max_nodes + 1, extra_nodes + 1):
+            for b in bodies(n, nest):
+                progs.append(b)
+        REDUCED = None
     # header with the children (their own children use cpt[1], cpt[2])
     with open(os.path.join(bdir, 'c08_children.h'), 'w') as f:
         f.write('/* generated by c08_gen.py */\n')
